@@ -100,7 +100,29 @@ func directC09(g *G, rep *Report) {
 	seen := map[string]bool{}
 	for i := 0; i < nb; i++ {
 		b := bg.bundle()
-		fs := append(b.sources(), srcFile{"rprobe.soy", racerProbe})
+		// identifiers no earlier bundle has used (caches keyed by identifier are then cold for this bundle)
+		uniq := "{namespace uq" + strconv.Itoa(i) + "}\n/** @param zq" + strconv.Itoa(i) + "User */\n{template .m}\n{msg desc=\"d\"}Hi {$zq" + strconv.Itoa(i) + "User.firstName" + strconv.Itoa(i) + "} <b>{$zq" + strconv.Itoa(i) + "User.lastName" + strconv.Itoa(i) + "}</b>{/msg}\n{/template}\n"
+		fs := append(b.sources(), srcFile{"rprobe.soy", racerProbe}, srcFile{"uniq.soy", uniq})
+		// COLD phase 1: the first compilations of these sources happen concurrently, in independent bundles
+		coldRegs := make([]*template.Registry, G)
+		{
+			var wg sync.WaitGroup
+			start := make(chan struct{})
+			for w := 0; w < G; w++ {
+				wg.Add(1)
+				go func(w int) {
+					defer wg.Done()
+					<-start
+					bb := soy.NewBundle()
+					for _, f := range fs {
+						bb.AddTemplateString(f.name, f.content)
+					}
+					coldRegs[w], _ = bb.Compile()
+				}(w)
+			}
+			close(start)
+			wg.Wait()
+		}
 		reg, err := compileBundle(fs)
 		if err != nil {
 			continue
@@ -147,6 +169,43 @@ func directC09(g *G, rep *Report) {
 		tofu := soyhtml.NewTofu(reg)
 		var wg sync.WaitGroup
 		var mu sync.Mutex
+		// COLD phase 2: the first renders and JS generations of a registry nobody has rendered yet happen concurrently
+		if cold := coldRegs[0]; cold != nil {
+			coldTofu := soyhtml.NewTofu(cold)
+			var cwg sync.WaitGroup
+			start := make(chan struct{})
+			for w := 0; w < G; w++ {
+				cwg.Add(1)
+				go func(w int) {
+					defer cwg.Done()
+					<-start
+					for k := range jobs {
+						j := jobs[(k+w)%len(jobs)]
+						var buf bytes.Buffer
+						err := coldTofu.NewRenderer(j.name).Inject(ij).Execute(&buf, j.d)
+						if (err == nil) != j.ok || buf.String() != j.want {
+							mu.Lock()
+							if len(rep.Violations) < 20 {
+								rep.Violations = append(rep.Violations, Viol{Key: "concurrent-output-differs:cold render of " + j.name, What: "a first render of a freshly compiled bundle, concurrent with others, produced different bytes than the sequential run",
+									Req: req("racer", encSources(fs)), Note: j.name, Impl: buf.String(), Want: j.want})
+							}
+							mu.Unlock()
+						}
+					}
+					if w%2 == 1 {
+						for _, sf := range cold.SoyFiles {
+							var buf bytes.Buffer
+							soyjs.Write(&buf, sf, soyjs.Options{})
+						}
+					}
+				}(w)
+			}
+			close(start)
+			cwg.Wait()
+			rep.Distribution["cold-bundles"]++
+		} else {
+			rep.Distribution["cold-compile-failed"]++
+		}
 		mismatch := func(what, got, want string) {
 			mu.Lock()
 			defer mu.Unlock()
